@@ -85,7 +85,7 @@ Definition py_upto (n : Z) : list Z := zrange 0 n 1.
 Definition range_step (i : idl) : Z := match diffs (cfgs i) with d :: _ => d | [] => 1 end.
 
 (* for x in xs: st = body st x *)
-Fixpoint py_for {S} (xs : list Z) (st : S) (body : S -> Z -> res S) : res S :=
+Fixpoint py_for {S X} (xs : list X) (st : S) (body : S -> X -> res S) : res S :=
   match xs with
   | [] => Ok st
   | x :: r => st' <- body st x ;; py_for r st' body
@@ -129,3 +129,39 @@ Fixpoint arr_dot (a b : list Q) : Q :=
 (* a.dot(b) raises ValueError on a shape mismatch *)
 Definition py_dot (a b : list Q) : res Q :=
   if Nat.eqb (List.length a) (List.length b) then Ok (arr_dot a b) else Raise ValueError.
+
+(* np.intersect1d(a, b, assume_unique=True, return_indices=True)[1] for duplicate-free a, b: the positions in a of the common
+   values, in the order of the sorted common values *)
+Fixpoint zindex_of (x : Z) (l : list Z) : Z :=
+  match l with [] => 0 | y :: r => if x =? y then 0 else 1 + zindex_of x r end.
+Definition py_intersect1d_pos (a b : list Z) : list Z :=
+  map (fun x => zindex_of x a) (zsort_set (filter (fun x => zmem x b) a)).
+(* a[indices] with an integer index list (numpy fancy indexing) *)
+Definition py_take (a : list Q) (ind : list Z) : res (list Q) := py_map (py_index a) ind.
+Definition py_max (l : list Z) : res Z :=
+  match l with [] => Raise ValueError | x :: r => Ok (fold_right Z.max x r) end.
+
+(* dictionaries with string keys (the per-ensemble parameter dictionaries of Obs) *)
+Definition dict_find (d : list (String.string * Q)) (k : String.string) : option Q :=
+  option_map snd (find (fun p => String.eqb (fst p) k) d).
+Definition dict_put (d : list (String.string * Q)) (k : String.string) (v : Q) : list (String.string * Q) :=
+  (k, v) :: filter (fun p => negb (String.eqb (fst p) k)) d.
+Definition is_some {A} (o : option A) : bool := match o with Some _ => true | None => false end.
+Definition opt_get (o : option Q) : Q := match o with Some v => v | None => 0%Q end.
+
+(* a[lo:hi] += v  on a numpy array (the shapes must agree) *)
+Fixpoint arr_add (a b : list Q) : list Q :=
+  match a, b with x :: a', y :: b' => Qred (x + y) :: arr_add a' b' | _, _ => [] end.
+Definition py_slice_add (l : list Q) (lo hi : Z) (v : list Q) : res (list Q) :=
+  let n := zlen l in let a := clip_index n lo in let b := clip_index n hi in
+  let mid := firstn (Z.to_nat (b - a)) (skipn (Z.to_nat a) l) in
+  if Nat.eqb (List.length mid) (List.length v)
+  then Ok (firstn (Z.to_nat a) l ++ arr_add mid v ++ skipn (Z.to_nat a + List.length mid) l)
+  else Raise ValueError.
+
+(* np.fft.irfft(np.abs(np.fft.rfft(x, P)) ** 2) for an even P >= len(x): the circular autocorrelation of x zero-padded to
+   length P (Wiener-Khinchin); numpy's FFT itself is an oracle, this is the mathematical meaning given to the expression *)
+Definition py_circ_autocorr (x : list Q) (P n : nat) : Q :=
+  Qsum (map (fun i => nth i x 0 * nth ((i + n) mod P) x 0)%Q (seq 0 P)).
+Definition py_fft_autocorr (x : list Q) (P : Z) : list Q :=
+  map (py_circ_autocorr x (Z.to_nat P)) (seq 0 (Z.to_nat P)).
